@@ -347,6 +347,17 @@ class OrderedMultiDict(dict, MutableMappingSequence):
     def copy(self):
         return type(self)(self)
 
+    def __reduce__(self):
+        # The default reduction for dict subclasses replays the dict
+        # storage (key -> list of values) through __setitem__, which
+        # is wrong for this class, so rebuild from the list of pairs.
+        state = {
+            k: v
+            for k, v in vars(self).items()
+            if k != "_OrderedMultiDict__items"
+        }
+        return type(self), (list(self.__items),), state or None
+
     def insert(self, index: int, *args) -> None:
         """Inserts at the index given by *index*.
 
